@@ -449,4 +449,101 @@ theorem rr_at (rr : RR) (hok : RROK rr) {t t' : Tree} {buf b : Bytes} {off : Nat
       exact ⟨rfl, rd.2⟩
 
 
+theorem at_mid (pre mid post : Bytes) : At (pre ++ mid ++ post) pre.length mid := ⟨pre, post, rfl, rfl⟩
+
+theorem pushRR_nonempty {rr : RR} {t t' : Tree} {off : Nat} {b : Bytes} (h : pushRR rr t off = some (b, t')) : 10 ≤ b.length := by
+  unfold pushRR at h
+  simp only [bind, Option.bind] at h
+  split at h
+  · cases h
+  · rename_i pr _
+    obtain ⟨nb, t1⟩ := pr
+    simp only at h
+    split at h
+    · cases h
+    · simp only [pure, Option.some.injEq, Prod.mk.injEq] at h
+      rw [← h.1]
+      simp [u16, u32]
+      omega
+
+theorem pushSection_ext (size : Nat) (rs : List RR) :
+    ∀ (bf : Bytes) (tt : Tree) (nn : Nat) (bf' : Bytes) (tt' : Tree) (nn' : Nat),
+      pushSection size rs bf tt nn = some (bf', tt', nn', false) → ∃ ext, bf' = bf ++ ext := by
+  induction rs with
+  | nil =>
+    intro bf tt nn bf' tt' nn' hh
+    simp only [pushSection, Option.some.injEq, Prod.mk.injEq] at hh
+    exact ⟨[], by simp [hh.1]⟩
+  | cons r rs ih2 =>
+    intro bf tt nn bf' tt' nn' hh
+    unfold pushSection at hh
+    cases hp : pushRR r tt bf.length with
+    | none => simp [hp] at hh
+    | some pr =>
+      obtain ⟨b, t1⟩ := pr
+      simp only [hp] at hh
+      split at hh
+      · simp at hh
+      · obtain ⟨e, he⟩ := ih2 _ _ _ _ _ _ hh
+        exact ⟨b ++ e, by rw [he, List.append_assoc]⟩
+
+/-- **section round trip**: the records `serialise_with_size` appends without truncating are read back, in order -/
+theorem section_at (size : Nat) (trunc : Bool) (rrs : List RR) (hok : ∀ rr ∈ rrs, RROK rr) :
+    ∀ (buf : Bytes) (t : Tree) (n : Nat) (buf' : Bytes) (t' : Tree) (n' : Nat),
+      pushSection size rrs buf t n = some (buf', t', n', false) → RootOK buf t → buf'.length < 65536 →
+      (∃ ext, buf' = buf ++ ext) ∧ n' = n + rrs.length ∧
+      (∀ post, getRRs (buf' ++ post) trunc rrs.length buf.length = .ok (rrs, buf'.length)) ∧ RootOK buf' t' := by
+  induction rrs with
+  | nil =>
+    intro buf t n buf' t' n' h ht _
+    simp only [pushSection, Option.some.injEq, Prod.mk.injEq] at h
+    obtain ⟨rfl, rfl, rfl, _⟩ := h
+    exact ⟨⟨[], by simp⟩, by simp, fun post => by simp [getRRs], ht⟩
+  | cons rr rest ih =>
+    intro buf t n buf' t' n' h ht hsz
+    unfold pushSection at h
+    cases hp : pushRR rr t buf.length with
+    | none => simp [hp] at h
+    | some r1 =>
+      obtain ⟨b, t1⟩ := r1
+      simp only [hp] at h
+      split at h
+      · simp at h
+      · have hrec := ih (fun x hx => hok x (List.mem_cons_of_mem _ hx)) (buf ++ b) t1 (n + 1) buf' t' n' h
+        -- buf' extends buf ++ b, so its length bounds the record's end
+        have hb10 := pushRR_nonempty hp
+        -- first get the extension fact without needing RootOK
+        have hext : ∃ ext, buf' = buf ++ b ++ ext := pushSection_ext size rest (buf ++ b) t1 (n + 1) buf' t' n' h
+        obtain ⟨ext, hext⟩ := hext
+        have hlen : buf.length + b.length ≤ buf'.length := by rw [hext]; simp
+        have hat : ∀ post, At (buf' ++ post) buf.length b := by
+          intro post; rw [hext]
+          have := at_mid buf b (ext ++ post)
+          simpa [List.append_assoc] using this
+        have htk : ∀ post, (buf' ++ post).take buf.length = buf := by
+          intro post; rw [hext]; simp [List.append_assoc, List.take_left']
+        have r0 := rr_at rr (hok rr (List.mem_cons_self ..)) hp (hat []) (by rw [htk]; exact ht) (by omega)
+        have ht1 : RootOK (buf ++ b) t1 := by
+          have := r0.2
+          have e2 : (buf' ++ []).take (buf.length + b.length) = buf ++ b := by
+            rw [hext, show buf.length + b.length = (buf ++ b).length by simp, List.append_assoc (buf ++ b) ext [],
+                List.take_left' rfl]
+          rw [e2] at this
+          exact this
+        obtain ⟨_, hn, hget, hroot⟩ := hrec ht1 hsz
+        refine ⟨⟨b ++ ext, by rw [hext, List.append_assoc]⟩, by simp [hn]; omega, ?_, hroot⟩
+        intro post
+        have r1 := rr_at rr (hok rr (List.mem_cons_self ..)) hp (hat post) (by rw [htk]; exact ht) (by omega)
+        have hoff : ¬ (buf.length ≥ (buf' ++ post).length && trunc) = true := by
+          simp; intro hge; omega
+        have hg := hget post
+        simp only [List.length_append] at hg
+        simp only [List.length_cons]
+        unfold getRRs
+        split
+        · rename_i hc; exact absurd hc hoff
+        · rw [r1.1]
+          simp only [hg]
+
+
 end Erbium.DnsWire
